@@ -212,6 +212,25 @@ def run(ctx, rep):
             if c.path == cm.CT_EQ and c.bb in region and c.dest["l"] in deciding and \
                     any(x.get("k") in ("copy", "move") and x["l"] in stv for x in c.args):
                 sig.add(("counter==0", tuple(w for w in [cm.array_width(f, a) for a in c.args] if w)))
+                # ... with zeros: the operand that is not a view of the state is an all-zero array
+                oth = [a for a in c.args if not (a.get("k") in ("copy", "move") and a["l"] in stv)]
+                if len(oth) != 1 or not cm.is_zero_array_operand(f, oth[0]):
+                    sig.add(("counter compared with something that is not all-zero", ()))
+                # polarity: the edge taken when the comparison says "equal" leads to the rekey on every path, the
+                # edge taken when it says "different" does not lead to it (`unwrap_u8() == 2` is never true)
+                from ..expr import edges_for_sets
+                dec_ = []
+                for b_ in range(f.n):
+                    if f.blocks[b_]["t"]["k"] == "switch" and b_ in region:
+                        r_ = edges_for_sets(f, b_, c, CT_T, CT_F)
+                        if r_ and r_[0] != r_[1]:
+                            dec_.append(r_)
+                leads = lambda t_: rk[0].bb in f.reachable(t_) and not any(x_ in f.reachable(t_, cut_blocks=[rk[0].bb]) for x_ in rets)
+                # (a switch on a flag that other conditions can set as well - `tag & 2 == 2 || counter == 0` returned by
+                # a folded-in helper - is decided per definition: "equal" must lead to the rekey, "different" may avoid it)
+                pol = bool(dec_) and all(all(leads(t_) for t_ in ta_) and any(not leads(t_) for t_ in tb_) for ta_, tb_ in dec_)
+                if not pol:
+                    sig.add(("counter==0 does not decide the rekey", ()))
         # the masked value is compared with the same constant
         for b, i, s_ in f.assigns():
             if b in region and s_["rv"]["k"] == "binop" and s_["rv"]["op"] in ("Eq", "Ne") and s_["place"]["l"] in deciding:
